@@ -287,6 +287,46 @@ for _n, _s, _p in ((0, 'standard', False), (1, 'standard', False), (2, 'standard
     make_funding_proof(_n, _s, _p)
 
 
+# ------------------------------------------------------------------ the fee of a requested claim output (name fee)
+
+@proof("C03", "claim.name-fee")
+class ClaimNameFee:
+    """the cost Transaction.create books for a requested NEW claim is at least the name fee: fee_per_name_char for every BYTE of the
+    claim name as it stands in the script (the blockchain prices the UTF-8 bytes, not the characters), and at least the byte-size
+    fee; an update of an existing claim pays the byte-size fee only"""
+    from lbry.wallet.script import OutputScript as _OS
+    inputs = dict(name=TStr(maxlen=255), payload=TBytes(maxlen=300), amount=AMOUNT, rate=FEE_RATE, per_char=TInt(0, 10 ** 7), new=TBool())
+    note = "ASCII, accented, CJK, emoji names x name-fee rates 0 / 200000 x size-fee rates 0 / 50"
+
+    def requires(name):
+        return len(name) >= 1
+
+    def run(name, payload, amount, rate, per_char, new):
+        from lbry.wallet.script import OutputScript
+        ledger = FakeLedger(rate, 'standard')
+        ledger.fee_per_name_char = per_char
+        raw_name = name.encode()
+        if new:
+            script = OutputScript.pay_claim_name_pubkey_hash(raw_name, payload, b'\x05' * 20)
+        else:
+            script = OutputScript.pay_update_claim_pubkey_hash(raw_name, b'\x06' * 20, payload, b'\x05' * 20)
+        txo = Output(amount, script)
+        return txo.get_fee(ledger), txo.size, len(raw_name)
+
+    def ensures_fee_is_the_larger_of_size_fee_and_name_fee(rate, per_char, new, result):
+        fee, size, name_bytes = result
+        size_fee = size * rate
+        name_fee = name_bytes * per_char if new else 0
+        return fee == (name_fee if name_fee > size_fee else size_fee)
+
+    def samples():
+        for name in ('a', 'name', 'caf\u00e9', '\u4e2d\u6587', '\U0001f600\U0001f680', 'x' * 255, '\u0080'):
+            for per_char in (0, 200000):
+                for rate in (0, 50):
+                    for new in (True, False):
+                        yield dict(name=name, payload=b'claim', amount=COIN, rate=rate, per_char=per_char, new=new)
+
+
 # ------------------------------------------------------------------ the selector alone, 3 candidates
 
 class Ref:
@@ -849,8 +889,9 @@ TRUSTED = [
     "list.sort is a stable sort; Random(seed).random() returns some float in [0, 1) (the random draw order is unknown but fixed)",
 ]
 NOT_DECIDED = [
-    "more than 2 spendable outputs / 1 requested output symbolically (the bounded stand-ins use up to 6); name-fee outputs; the "
-    "five-round edge case of builds with no requested output",
+    "more than 2 spendable outputs / 1 requested output symbolically (the bounded stand-ins use up to 6); funding of claim outputs end to "
+    "end (the fee of a claim output is proved by claim.name-fee, create[*] books output fees through get_fee); the five-round edge case "
+    "of builds with no requested output",
     "the sqlite chooser over more than 2 rows / amounts of 10^13 dewies and more symbolically (chooser[1], chooser[2] execute its real body "
     "over a table model; create[*,sqlite] uses its call-site contract; real sqlite in the bounded stand-ins; fixed findings F7, F7b, F7c)",
     "reading R-C03-1: 'cannot cover the cost' leaves closest_match / random_draw / sqlite the room they ask for a change output "
